@@ -8,6 +8,7 @@
 From Coq Require Import List ZArith Bool Lia.
 From SC.gen Require Import ErrTable.
 From SC Require Import ExpErr ExpErr_Proofs.
+From SC Require Import gen.ErrArena ErrBuf ErrBuf_Proofs.
 Import ListNotations.
 Local Open Scope Z_scope.
 
@@ -51,6 +52,25 @@ Theorem c20_every_report_passes_what_its_format_quotes : forall code passed, In 
   in_table code /\ e_nargs (entry code) = passed.
 Proof. exact report_sites_match_formats. Qed.
 Print Assumptions c20_every_report_passes_what_its_format_quotes.
+
+(* With -B no diagnostic is cut short or run into the next one: whatever diagnostics a file raises - any number, messages
+   and file names of any length - each one is either printed at once (it is larger than the whole buffer) or stored whole:
+   prefix, message, newline and terminator fit what is left of the buffer at that moment, under a slot of heap[] that
+   exists.  [inv] is what holds between two reports; sizes, the measuring step, the prefix formats and the conditions for
+   printing the buffer are regenerated from error.c (gen/ErrArena.v). *)
+Theorem c20_buffered_diagnostics_are_stored_whole : forall ms s, inv s = true -> forallb msg_ok ms = true ->
+  inv (fst (run s ms)) = true /\ forallb (fun p => what_ok (fst p) (snd p)) (combine ms (snd (run s ms))) = true.
+Proof. exact run_ok. Qed.
+Print Assumptions c20_buffered_diagnostics_are_stored_whole.
+
+Example c20_buffer_example :
+  let long := {| m_len := 290; m_fn := 12; m_digits := 2 |} in
+  let huge := {| m_len := 5000; m_fn := 12; m_digits := 1 |} in
+  inv init = true /\ forallb msg_ok (repeat long 30 ++ [huge]) = true /\
+  map (fun w => match w with Direct => 0 | Stored a _ _ => a end) (snd (run init (repeat long 13))) =
+    [0; 324; 648; 972; 1296; 1620; 1944; 2268; 2592; 2916; 3240; 3564; 0] /\
+  nth 30 (snd (run init (repeat long 30 ++ [huge]))) (Stored 0 0 true) = Direct.
+Proof. vm_compute. repeat split. Qed.
 
 Example c20_example :
   (* IMPLICIT_DOWNCAST (code 14, class downcast) is off by default, on with -w, off again with -i *)
